@@ -326,6 +326,10 @@ class LoadScopeScheduling:
         if node.shutting_down:
             return
 
+        # Nor to a node which has not reported its collection yet
+        if node not in self.registered_collections:
+            return
+
         # Check that more work is available
         if not self.workqueue:
             node.shutdown()
